@@ -139,6 +139,103 @@ def source_scan():
     return hits
 
 
+# ---- (c2) wall-clock / timer sites -----------------------------------------------------------------
+CLOCK_RX = r"\btimer\b|chrono::|\bclock\b|\belapsed\b|sleep_for|sleep_until|steady_clock|system_clock|" \
+           r"high_resolution_clock|\bnow\s*\(|gettimeofday|clock_gettime|difftime|\bmktime\b|localtime"
+# today's sites, each read and classified (see design/C07.md); key = (file, whitespace-normalised text).
+# role: "def" the timer class itself, "plumb" declaration/parameter passing, "field" the elapsed field of a
+# summary (excluded from the property: wall-clock field), "log" time stamps / messages, "cond" a condition.
+CLOCK_SITES = {
+    ("kernel/evolution.h", '#include "utility/timer.h"'): "plumb",
+    ("kernel/evolution.h", "void print_progress(unsigned, unsigned, bool, timer *) const;"): "plumb",
+    ("kernel/evolution.tcc", "bool summary, timer *from_last_msg) const"): "plumb",
+    ("kernel/evolution.tcc", "timer measure;"): "plumb",
+    ("kernel/evolution.tcc", "timer from_last_msg;"): "plumb",
+    ("kernel/evolution.tcc", "if (from_last_msg.elapsed() > std::chrono::seconds(2))"): "cond",
+    ("kernel/evolution.tcc", "stats_.elapsed = measure.elapsed();"): "field",
+    ("kernel/evolution.tcc", "<< std::chrono::duration<double>(stats_.elapsed).count()"): "log",
+    ("kernel/evolution_summary.h", "std::chrono::milliseconds elapsed;"): "field",
+    ("kernel/evolution_summary.tcc",
+     "summary<T>::summary() : az(), best{T(), model_measurements()}, elapsed(0),"): "field",
+    ("kernel/evolution_summary.tcc", "tmp_summary.elapsed = std::chrono::milliseconds(ms);"): "field",
+    ("kernel/evolution_summary.tcc",
+     "out << elapsed.count() << ' ' << mutations << ' ' << crossovers << ' '"): "field",
+    ("kernel/search.tcc", "overall.elapsed += r.elapsed;"): "field",
+    ("kernel/search.tcc", 'set_text(e_summary, "elapsed_time", stats.overall.elapsed.count());'): "log",
+    ("kernel/log.cc", "const auto tp(std::chrono::system_clock::now());"): "log",
+}
+# everything executed under a wall-clock condition: (file, condition) -> the controlled statement(s).
+# Today: the progress line (printing only; restarts the timer when printing is on) and the poll of the
+# keyboard (`.` stops the run: user input, not the clock, decides).
+CLOCK_BLOCKS = {
+    ("kernel/evolution.tcc", "if (from_last_msg.elapsed() > std::chrono::seconds(2))"):
+        "{ print_progress(k, run_count, false, &from_last_msg); stop = term::user_stop(); }",
+}
+
+
+def norm_ws(t):
+    return re.sub(r"\s+", " ", t).strip()
+
+
+def controlled_statement(src, pos):
+    """text of the statement controlled by the `if/while (…)` whose condition ends at src[pos-1]"""
+    i = pos
+    while i < len(src) and src[i].isspace():
+        i += 1
+    if i < len(src) and src[i] == "{":
+        depth, j = 0, i
+        while j < len(src):
+            if src[j] == "{":
+                depth += 1
+            elif src[j] == "}":
+                depth -= 1
+                if depth == 0:
+                    return src[i:j + 1]
+            j += 1
+        return src[i:]
+    j = src.find(";", i)
+    return src[i:j + 1] if j >= 0 else src[i:]
+
+
+def clock_scan():
+    sites, blocks = [], []
+    for sub in ("kernel", "utility"):
+        for d, dn, fs in os.walk(os.path.join(C.REPO, "src", sub)):
+            dn.sort()
+            for f in sorted(fs):
+                if not f.endswith((".h", ".cc", ".tcc")):
+                    continue
+                rel = os.path.relpath(os.path.join(d, f), os.path.join(C.REPO, "src"))
+                if rel == "utility/timer.h":          # the definition of `timer` (steady_clock wrapper)
+                    continue
+                src = strip_cxx_comments(open(os.path.join(d, f), errors="replace").read())
+                for i, ln in enumerate(src.splitlines(), 1):
+                    if re.search(CLOCK_RX, ln):
+                        t = norm_ws(ln)
+                        role = CLOCK_SITES.get((rel, t))
+                        sites.append({"file": rel, "line": i, "text": t[:140], "role": role or "NEW",
+                                      "new": role is None})
+                # statements controlled by a condition that mentions the clock
+                for m in re.finditer(r"\b(if|while)\s*\(", src):
+                    depth, j = 0, m.end() - 1
+                    while j < len(src):
+                        if src[j] == "(":
+                            depth += 1
+                        elif src[j] == ")":
+                            depth -= 1
+                            if depth == 0:
+                                break
+                        j += 1
+                    cond = src[m.start():j + 1]
+                    if re.search(CLOCK_RX, cond):
+                        body = norm_ws(controlled_statement(src, j + 1))
+                        want = CLOCK_BLOCKS.get((rel, norm_ws(cond)))
+                        blocks.append({"file": rel, "line": src.count("\n", 0, m.start()) + 1,
+                                       "condition": norm_ws(cond), "controls": body[:400],
+                                       "reviewed": want == body})
+    return sites, blocks
+
+
 # ---- (b) whole runs -----------------------------------------------------------------------------
 def transcripts(chk, rng, broken):
     exe = C.build_harness("c07_run", "plain")
@@ -164,11 +261,31 @@ def transcripts(chk, rng, broken):
                   ([rng.next() | 1], {"MALLOC_TOP_PAD_": "1048576"})]
         return v
 
+    # timing perturbation: a process that stalls > 2 s (once, at a seed-dependent point) must print the
+    # transcript of the processes running at full speed.  evolution::run has a branch taken when more
+    # than 2 s passed since the last progress message; std_es / ALPS decisions read stats_.az.
+    STALL_MS = 2300
+    quick = chk.tier == "quick"
+    stall_cfgs = {"mep-std": 1, "mep-alps": 1, "ga-alps": 1} if quick else {c: 3 for c in CONFIGS}
+    seen_cfg = {}
     plan = []
+    nstall = 0
     for cfg, seed, gens, inds in jobs:
         for bname, bexe in exes:
             for extra, env in variants(cfg):
                 plan.append((cfg, seed, gens, inds, bname, bexe, extra, env))
+        k = seen_cfg.get(cfg, 0)
+        seen_cfg[cfg] = k + 1
+        if k < stall_cfgs.get(cfg, 0):
+            # after the n-th callback of the first search.run (n <= gens-2: generations follow the stall)
+            n = rng.between(0, max(1, gens - 1))
+            plan.append((cfg, seed, gens, inds, "plain", exe, [0, "stall-cb:%d:%d" % (n, STALL_MS)], {}))
+            nstall += 1
+            if cfg in REPEATABLE and (not quick or cfg == "ga-alps"):
+                # in the middle of a generation: inside the (inds + m)-th fitness evaluation
+                m = inds + rng.between(1, inds)
+                plan.append((cfg, seed, gens, inds, "plain", exe, [0, "stall-eval:%d:%d" % (m, STALL_MS)], {}))
+                nstall += 1
 
     def one(p):
         cfg, seed, gens, inds, bname, bexe, extra, env = p
@@ -178,7 +295,7 @@ def transcripts(chk, rng, broken):
             return p, 124, "", repr(e)
         return p, rc, so, se
 
-    with cf.ThreadPoolExecutor(min(6, C.NPROC)) as ex:
+    with cf.ThreadPoolExecutor(min(8, C.NPROC)) as ex:     # stalled processes mostly sleep
         res = list(ex.map(one, plan))
 
     groups = {}
@@ -191,6 +308,11 @@ def transcripts(chk, rng, broken):
                           {"run": args, "build": bname, "env": env},
                           tags={"kind": "run", "config": cfg, "clause": "died"})
             continue
+        if "STALL-NOT-REACHED" in so:
+            broken.append("timing perturbation did not happen in `%s` (stall point beyond the end of the run)" % args)
+            so = so.replace("STALL-NOT-REACHED\n", "")
+        if any(str(x).startswith("stall-") for x in extra):
+            chk.count("stalled_process:" + cfg)
         main, _, rep = so.partition("REPEAT ")
         if rep and not rep.startswith("same"):
             a, b = main.splitlines(), rep.split("SECOND\n", 1)[-1].splitlines()
@@ -213,14 +335,18 @@ def transcripts(chk, rng, broken):
             if r[3] != ref[3]:
                 a, b = ref[3].splitlines(), r[3].splitlines()
                 first = next((i for i, (x, y) in enumerate(zip(a, b)) if x != y), min(len(a), len(b)))
-                chk.violation("same seed, two PROCESSES print different transcripts: `%s` (%s) vs `%s` (%s, env %s) – "
+                chk.violation("same seed, two PROCESSES print different transcripts%s: `%s` (%s) vs `%s` (%s, env %s) – "
                               "first differing line %d:\n  A: %s\n  B: %s"
-                              % (ref[1], ref[0], r[1], r[0], sorted(r[2]), first,
+                              % (" (B stalls once for > 2 s: the result depends on the wall clock)"
+                                 if "stall-" in r[1] else "", ref[1], ref[0], r[1], r[0], sorted(r[2]), first,
                                  a[first][:300] if first < len(a) else "<end>",
                                  b[first][:300] if first < len(b) else "<end>"),
                               {"run_a": ref[1], "run_b": r[1], "env_b": r[2], "builds": [ref[0], r[0]]},
-                              tags={"kind": "run", "config": key[0], "clause": "two-processes"})
+                              tags={"kind": "run", "config": key[0],
+                                    "clause": "timing" if "stall-" in r[1] else "two-processes"})
                 break
+    chk.cov["timing_perturbation"] = {"stalled_processes": nstall, "stall_ms": STALL_MS,
+                                      "configurations": sorted(stall_cfgs)}
     chk.cov["whole_runs"] = {"configurations": CONFIGS, "processes": len(res), "groups": len(groups),
                              "generations_compared": ngen, "builds": [b for b, _ in exes]}
     if groups:
@@ -342,6 +468,19 @@ def run(chk, replay=None):
                 broken.append(msg + " – a source of randomness outside random::engine")
             else:
                 chk.notes.append(msg + " – potential address dependence; relying on the transcript comparison")
+        sites, blocks = clock_scan()
+        chk.cov["clock_sites"] = sites
+        chk.cov["clock_controlled_code"] = blocks
+        for b in blocks:
+            if not b["reviewed"]:
+                broken.append("code executed under a wall-clock condition changed or is new: src/%s:%d `%s` now controls "
+                              "`%s` – not the reviewed block (reviewed: progress line + keyboard poll only)"
+                              % (b["file"], b["line"], b["condition"], b["controls"][:300]))
+        for st in sites:
+            if st["new"]:
+                chk.notes.append("clock scan: new wall-clock / timer use at src/%s:%d `%s` (not on the reviewed list in "
+                                 "checks/c07.py CLOCK_SITES); relying on the timing-perturbed transcript comparison"
+                                 % (st["file"], st["line"], st["text"]))
         # ---- (b) whole runs ----------------------------------------------------------------
         transcripts(chk, rng, broken)
 
